@@ -281,6 +281,9 @@ def slot_obligations(run, label, W, meta0, ass):
 def _dim_components(text):
   import ast
 
+  if text.strip() == "()":
+    return []
+
   try:
     n = ast.parse(text.strip(), mode="eval").body
   except SyntaxError:
@@ -334,6 +337,465 @@ def cover_obligations(run, label):
         continue
       ok = comps[k] in _EXTENT_TEXT[lead]
       out.append(Result(oid=oid, status="discharged" if ok else "violated", kind="COVER", func=key, backend="launch-site analysis", meta=m))
+  return out
+
+
+# ---------------------------------------------------------------------------------------------- BOUNDS (C17)
+# size relations guaranteed by make_data / put_data / put_model (assumed: the allocation code is numpy host code)
+SIZE_FACTS = [
+  ("nv", "nv_pad"), ("njmax", "njmax_pad"), ("nvmax", "nvmax_pad"), ("nvmax", "nv"), ("naccdmax", "naconmax"),
+]
+
+
+def _ext(name):
+  return z3.Int(f"ext!{name}")
+
+
+def _dim_term(text, site, run):
+  """launch-dim component (source text) -> z3 term over extent symbols, or None when it is not resolvable"""
+  import ast
+
+  inv = {}
+  for f, a in site.binding.items():
+    inv.setdefault(a.replace(" ", ""), f)
+
+  def rec(n):
+    if isinstance(n, ast.Constant) and isinstance(n.value, int):
+      return z3.IntVal(n.value)
+    if isinstance(n, ast.BinOp) and isinstance(n.op, (ast.Add, ast.Sub, ast.Mult)):
+      l, r = rec(n.left), rec(n.right)
+      if l is None or r is None:
+        return None
+      return l + r if isinstance(n.op, ast.Add) else (l - r if isinstance(n.op, ast.Sub) else l * r)
+    t = ast.unparse(n).replace(" ", "")
+    if isinstance(n, ast.Attribute) and isinstance(n.value, ast.Name) and n.value.id in ("m", "d", "mfull", "dfull"):
+      return _ext(n.attr)
+    if isinstance(n, ast.Subscript) and t.rsplit(".shape[", 1)[0] in inv and t.endswith("]"):
+      base, k = t.rsplit(".shape[", 1)
+      f = inv[base]
+      if isinstance(run.params.get(f), ArrRef):
+        try:
+          return run.ex.shape_sym(run.params[f], int(k[:-1]))
+        except ValueError:
+          return None
+    if isinstance(n, ast.Attribute) and n.attr == "size" and ast.unparse(n.value).replace(" ", "") in inv:
+      f = inv[ast.unparse(n.value).replace(" ", "")]
+      if isinstance(run.params.get(f), ArrRef) and run.params[f].ndim == 1:
+        return run.ex.shape_sym(run.params[f], 0)
+    return None
+
+  try:
+    return rec(ast.parse(text, mode="eval").body)
+  except SyntaxError:
+    return None
+
+
+def _temp_shape_facts(run, site, formal):
+  """shape facts for an array formal that is not a Model/Data field by name: the actual is a temporary allocated in
+  the launching host function (wp.zeros/empty/ones/full((..)), wp.zeros_like / empty_like / clone of a field)"""
+  import ast
+
+  from . import extract
+
+  v = run.params.get(formal)
+  actual = site.binding.get(formal, "").replace(" ", "")
+  if not isinstance(v, ArrRef) or not actual.isidentifier():
+    if isinstance(v, ArrRef) and actual.startswith(("d.", "m.")):
+      # a field passed under another formal name: use the field's own spec
+      cls = census.classify_formal(actual.split(".")[-1])
+      if cls is not None and not (actual.startswith("d.efc.") or actual.startswith("d.contact.")):
+        return _spec_facts(run, v, cls[2])
+      for pre, cname in (("d.efc.", "efc_"), ("d.contact.", "contact_")):
+        if actual.startswith(pre):
+          cls = census.classify_formal(cname + actual[len(pre):])
+          if cls is not None:
+            return _spec_facts(run, v, cls[2])
+    return None
+  try:
+    host = extract.get_func(site.host)
+  except KeyError:
+    return None
+  vals = []
+  for n in ast.walk(host.node):
+    if isinstance(n, ast.Assign) and any(isinstance(t, ast.Name) and t.id == actual for t in n.targets):
+      vals.append(n.value)
+  if len(vals) != 1 or not isinstance(vals[0], ast.Call):
+    return None
+  c = vals[0]
+  f = ast.unparse(c.func)
+  if f in ("wp.zeros", "wp.empty", "wp.ones", "wp.full") and c.args:
+    sh = c.args[0]
+    for kw in c.keywords:
+      if kw.arg == "shape":
+        sh = kw.value
+    elts = sh.elts if isinstance(sh, (ast.Tuple, ast.List)) else [sh]
+    if len(elts) != v.ndim:
+      return None
+    facts = []
+    for k, e in enumerate(elts):
+      t = _dim_term(ast.unparse(e), site, run)
+      if t is None:
+        return None
+      facts.append(run.ex.shape_sym(v, k) == t)
+    return facts
+  if f in ("wp.zeros_like", "wp.empty_like", "wp.clone") and c.args:
+    src = ast.unparse(c.args[0]).replace(" ", "")
+    if src.startswith("d.") and src.count(".") == 1:
+      cls = census.classify_formal(src.split(".")[1])
+      if cls is not None:
+        return _spec_facts(run, v, cls[2])
+  return None
+
+
+def _spec_facts(run, v, dims):
+  facts = []
+  for k, dn in enumerate(dims[: v.ndim]):
+    sh = run.ex.shape_sym(v, k)
+    if isinstance(dn, int):
+      facts.append(sh == dn)
+    elif dn == "*":
+      facts.append(sh >= 1)
+    elif isinstance(dn, str):
+      facts.append(sh == _ext(dn))
+  return facts
+
+
+def _has_array_read(t, cache=None):
+  """does the index term read memory (an applied uninterpreted function other than the arithmetic helpers)?
+  cache: {ast id: bool} shared by the caller (sub-terms are shared between the index terms of one kernel)"""
+  if cache is None:
+    cache = {}
+  stack = [(t, False)]
+  order = []
+  while stack:
+    x, done = stack.pop()
+    k = x.get_id()
+    if k in cache:
+      continue
+    if done:
+      r = False
+      if z3.is_app(x):
+        if x.decl().kind() == z3.Z3_OP_UNINTERPRETED and x.num_args() > 0 and x.decl().name().split("@")[0] not in ("pow2", "div0", "mod0"):
+          r = True
+        else:
+          r = any(cache.get(c.get_id(), False) for c in x.children())
+      cache[k] = r
+      continue
+    stack.append((x, True))
+    if z3.is_app(x):
+      if x.decl().kind() == z3.Z3_OP_UNINTERPRETED and x.num_args() > 0 and x.decl().name().split("@")[0] not in ("pow2", "div0", "mod0"):
+        continue  # decided at this node, no need to look below
+      for c in x.children():
+        if c.get_id() not in cache:
+          stack.append((c, False))
+  return cache[t.get_id()]
+
+
+_BOUNDS_EXCL = None
+
+
+def _bounds_excluded():
+  global _BOUNDS_EXCL
+  if _BOUNDS_EXCL is None:
+    import os
+
+    _BOUNDS_EXCL = set()
+    p = os.path.join(os.path.dirname(os.path.dirname(os.path.abspath(__file__))), "contracts", "bounds_needs_wf.txt")
+    if os.path.exists(p):
+      for line in open(p):
+        line = line.strip()
+        if line and not line.startswith("#"):
+          _BOUNDS_EXCL.add(line.split()[0])
+  return _BOUNDS_EXCL
+
+
+def bounds_obligations(run, label):
+  """BOUNDS: every array subscript whose index is pure index arithmetic (thread ids, loop counters, integer
+  parameters, slots returned by atomic_add -- no value read from memory) lies inside the array, for the extents of
+  every launch site: 0 <= idx_k < shape_k. Array shapes and size parameters are tied to the extents of the types.py
+  field specs (what make_data / put_model allocate); indices that depend on values read from arrays (model index
+  tables, addresses stored in Data) need producer contracts or MODEL_WF facts and are outside this schema."""
+  from . import launchsites
+
+  ex = run.ex
+  key = run.key
+  sites = launchsites.sites_of_kernel(key)
+  meta0 = {"function": key, "source_hash": run.info.source_hash, "specialisation": label}
+  out = []
+  if not sites and getattr(run.info, "kind", "") != "kernel":
+    # a @wp.func checked on its own (its callers are outside the dialect): no thread ids; integer parameters named
+    # after a Data size (naconmax_in, njmax_in, ...) are that size, by the repo's naming convention
+    from .launchsites import Site
+
+    b = {}
+    for name, v in run.params.items():
+      if isinstance(v, z3.ExprRef) and z3.is_int(v) and name.endswith("_in"):
+        b[name] = "d." + name[:-3]
+    sites = [Site(host=key, lineno=0, kernel=key, closure={}, dim="()", binding=b)]
+  if not sites:
+    return out
+  # facts about shapes and size parameters
+  facts = []
+  unknown_shape = set()
+  layout_unknown = set()
+  for name, v in run.params.items():
+    if isinstance(v, ArrRef):
+      cls = census.classify_formal(name)
+      if cls is None:
+        unknown_shape.add(name)
+        continue
+      if cls[0] == "Constraint" and cls[1] in ("J", "J_colind", "J_rownnz", "J_rowadr"):
+        # two layouts (make_data): sparse (nworld, 1, njmax_nnz) / (nworld, njmax); dense J (nworld, njmax_pad, nv_pad)
+        sp = run.fr.closure.get("is_sparse")
+        if sp is True:
+          facts.extend(_spec_facts(run, v, cls[2]))
+        elif sp is False and cls[1] == "J":
+          facts.extend(_spec_facts(run, v, ("nworld", "njmax_pad", "nv_pad")))
+        else:
+          layout_unknown.add(name)
+        continue
+      facts.extend(_spec_facts(run, v, cls[2]))
+  # T4: a slot returned by atomic_add on a counter is >= 0
+  for a in ex.st.log:
+    if a.kind == "atomic" and a.op == "add" and isinstance(a.value, tuple) and isinstance(a.value[1], z3.ExprRef) and z3.is_int(a.value[1]):
+      facts.append(a.value[1] >= 0)
+  exts = set()
+  for a, b in SIZE_FACTS:
+    facts.append(_ext(a) <= _ext(b))
+  seen_sites = set()
+  n_ob = 0
+  rd_cache = {}
+  for s in sites:
+    comps = _dim_components(s.dim) or []
+    dimt = [_dim_term(c, s, run) for c in comps]
+    sig = tuple(str(d) for d in dimt) + tuple(sorted((f, a) for f, a in s.binding.items() if isinstance(run.params.get(f), z3.ExprRef)))
+    if sig in seen_sites:
+      continue
+    seen_sites.add(sig)
+    sf = list(facts)
+    no_shape = set()
+    for name in unknown_shape:
+      tf = _temp_shape_facts(run, s, name)
+      if tf is None:
+        no_shape.add(name)
+      else:
+        sf.extend(tf)
+    unresolved = set()
+    for j, d in enumerate(ex.dims):
+      if j < len(dimt) and dimt[j] is not None:
+        sf.append(d == dimt[j])
+      else:
+        unresolved.add(f"tid{j}")
+    for f, a in s.binding.items():
+      v = run.params.get(f)
+      if isinstance(v, z3.ExprRef) and z3.is_int(v):
+        t = a.replace(" ", "")
+        if t.startswith(("m.", "d.", "mfull.", "dfull.")) and t.count(".") == 1:
+          sf.append(v == _ext(t.split(".")[1]))
+    seen = set()
+    # one incremental solver per launch site: the (integer-projected) background facts are asserted once, every
+    # subscript is a push / check / pop. What it proves is final; anything else goes through the general back end.
+    from . import smt as _smt
+
+    inc = z3.Solver()
+    inc.set("timeout", 2000)
+    pstate = run.__dict__.setdefault("_proj_state", {"keep": []})
+    try:
+      pstate["keep"].append(sf)
+      for c in _smt.integer_projection(list(ex.assumes) + sf, pstate):
+        inc.add(c)
+    except z3.Z3Exception:
+      inc = None
+    for fname, a in formal_accesses(run):
+      if not a.idx or fname in no_shape or fname in layout_unknown:
+        continue  # (no shape known: a temporary whose allocation is not visible at the launch site)
+      for k, idx in enumerate(a.idx[: a.arr.ndim]):
+        if idx is None:
+          continue
+        t = lift(idx)
+        if not z3.is_int(t) or _has_array_read(t, rd_cache):
+          continue
+        fc = free_consts(t)
+        if fc & unresolved:
+          continue  # launch extent of that thread-id component is not a resolvable expression
+        sg = (fname, k, t.get_id(), zb(a.guard).get_id())
+        if sg in seen:
+          continue
+        seen.add(sg)
+        if f"{key}|{fname}[{k}]" in _bounds_excluded():
+          continue  # committed list of subscripts that need facts about stored data (contracts/bounds_needs_wf.txt)
+        sh = ex.shape_sym(a.arr, k)
+        n_ob += 1
+        oid = f"{key}[{label}]#BOUNDS.{fname}[{k}]@{a.lineno}.{a.kind}@{s.host.split(':')[-1]}:{s.lineno}"
+        m = dict(meta0, goal=f"0 <= {str(t)[:60]} < {fname}.shape[{k}] at line {a.lineno} (launch {s.dim})", lineno=a.lineno, int_projection=True, timeout_ms=4000)
+        goal = sh > 0 if (z3.is_int_value(t) and t.as_long() == 0) else z3.And(t >= 0, t < sh)
+        if inc is not None:
+          inc.push()
+          try:
+            for c in _smt.integer_projection([zb(a.guard)], pstate):
+              inc.add(c)
+            inc.add(z3.Not(goal))
+            r = inc.check()
+          except z3.Z3Exception:
+            r = z3.unknown
+          inc.pop()
+          if r == z3.unsat:
+            out.append(Result(oid=oid, status="discharged", kind="BOUNDS", func=key, backend="z3-5.1(api) incremental, integer projection of the hypotheses", meta={k2: v for k2, v in m.items() if k2 not in ("int_projection", "timeout_ms")}))
+            continue
+        out.append(Obligation(oid, list(ex.assumes) + sf + [zb(a.guard)], goal, func=key, kind="BOUNDS", meta=m))
+  return out
+
+
+# ---------------------------------------------------------------------------------------------- RACE (C11)
+def _thread_local_consts(terms):
+  """constants that belong to one thread: thread ids, loop counters, values returned by atomics, havocked locals"""
+  out = {}
+  seen = set()
+  stack = list(terms)
+  while stack:
+    x = stack.pop()
+    if x.get_id() in seen:
+      continue
+    seen.add(x.get_id())
+    if z3.is_quantifier(x):
+      stack.append(x.body())
+      continue
+    if z3.is_app(x):
+      if z3.is_const(x) and x.decl().kind() == z3.Z3_OP_UNINTERPRETED:
+        n = x.decl().name()
+        if n.startswith("tid") and n[3:].isdigit() or "!" in n or "@atomic_" in n:
+          out[n] = x
+      stack.extend(x.children())
+  return out
+
+
+def race_obligations(run, label):
+  """RACE: two DISTINCT threads of one launch never touch the same cell of an array in a conflicting way -- a plain
+  store against any other access (store, read, atomic) -- so the result cannot depend on the order in which the
+  threads run. Atomic-against-atomic pairs are commutative updates and are accepted (sum order: round-off only);
+  the value returned by an atomic_add is the allocator (T4). Stated for subscripts that are pure index arithmetic;
+  accesses through index tables need injectivity facts about the tables (MODEL_WF) and are outside this schema.
+  Two-thread encoding: the second thread is the first with every thread-local constant renamed."""
+  from . import smt as _smt
+
+  ex = run.ex
+  key = run.key
+  meta0 = {"function": key, "source_hash": run.info.source_hash, "specialisation": label}
+  out = []
+  if not ex.tids:
+    return out
+  # block-cooperative kernels (wp.launch_tiled / wp.tile_* / explicit block_dim): the threads of one block work on the
+  # same cells by design, synchronised by the tile primitives; the two-thread argument does not apply to them
+  import ast as _ast
+
+  from . import launchsites as _ls
+
+  if any(s_.tiled for s_ in _ls.sites_of_kernel(key)) or any(isinstance(n_, _ast.Attribute) and n_.attr.startswith("tile") for n_ in _ast.walk(run.info.node)):
+    out.append(Result(oid=f"{key}[{label}]#RACE.block_cooperative", status="out-of-scope", kind="scope", func=key, reason="block-cooperative (tiled) kernel: thread-pair race analysis not applicable", meta=meta0))
+    return out
+  formals = {v.aid: n for n, v in run.params.items() if isinstance(v, ArrRef)}
+  by_arr = {}
+  rd_cache = {}
+  for a in ex.st.log:
+    if a.arr.aid not in formals or a.guard is False or not a.idx:
+      continue
+    by_arr.setdefault(a.arr.aid, []).append(a)
+  pairs = []
+  skipped = 0
+  for aid, accs in by_arr.items():
+    writes = [a for a in accs if a.kind == "w"]
+    if not writes:
+      continue
+    sig_seen = set()
+    for wa in writes:
+      for b in accs:
+        if b.kind == "r" and b is not wa:
+          # read against plain store by another thread
+          pass
+        pure = all(i is None or (z3.is_int(lift(i)) and not _has_array_read(lift(i), rd_cache)) for i in list(wa.idx) + list(b.idx))
+        if not pure:
+          skipped += 1
+          continue
+        sg = (tuple(lift(i).get_id() for i in wa.idx if i is not None), zb(wa.guard).get_id(), tuple(lift(i).get_id() for i in b.idx if i is not None), zb(b.guard).get_id(), b.kind)
+        if sg in sig_seen:
+          continue
+        sig_seen.add(sg)
+        pairs.append((formals[aid], wa, b))
+  if not pairs:
+    return out
+  # second thread: rename thread-local constants
+  terms = []
+  for _, wa, b in pairs:
+    terms += [lift(i) for i in list(wa.idx) + list(b.idx) if i is not None] + [zb(wa.guard), zb(b.guard)]
+  base = [a for a in ex.assumes if isinstance(a, z3.ExprRef)]
+  loc = _thread_local_consts(terms + base)
+  ren = [(c, z3.Const(n + "'", c.sort())) for n, c in loc.items()]
+  prime = lambda t: z3.substitute(t, *ren) if ren else t
+  distinct = z3.Or(*[t != prime(t) for t in ex.tids])
+  pstate = {"keep": []}
+  inc = z3.Solver()
+  inc.set("timeout", 2000)
+  try:
+    hyp = _smt.integer_projection(base, pstate)
+    hyp2 = [prime(h) for h in hyp]
+    pstate["keep"].append(hyp2)
+    for c in hyp + hyp2:
+      inc.add(c)
+    inc.add(distinct)
+    # T4 (allocator axiom, two-thread form): blocks handed out by atomic_add on the same counter cell to two
+    # different threads are disjoint:  ret + inc <= ret'  or  ret' + inc' <= ret
+    atoms_ = [a for a in ex.st.log if a.kind == "atomic" and a.op == "add" and isinstance(a.value, tuple) and isinstance(a.value[1], z3.ExprRef) and z3.is_int(a.value[1])]
+    alloc_ax = []
+    for a1 in atoms_:
+      for a2 in atoms_:
+        if a1.arr.aid != a2.arr.aid:
+          continue
+        try:
+          inc1, ret1 = lift(a1.value[0]), a1.value[1]
+          inc2, ret2 = prime(lift(a2.value[0])), prime(a2.value[1])
+          samecell = z3.And(*[lift(i) == prime(lift(j)) for i, j in zip(a1.idx, a2.idx) if i is not None and j is not None]) if a1.idx else z3.BoolVal(True)
+          g1 = z3.And(*_smt.integer_projection([zb(a1.guard)], pstate)) if a1.guard is not True else z3.BoolVal(True)
+          g2 = z3.And(*[prime(x) for x in _smt.integer_projection([zb(a2.guard)], pstate)]) if a2.guard is not True else z3.BoolVal(True)
+          alloc_ax.append(z3.Implies(z3.And(samecell, g1, g2, inc1 > 0, inc2 > 0), z3.Or(ret1 + inc1 <= ret2, ret2 + inc2 <= ret1)))
+        except Exception:
+          continue
+    for c in alloc_ax:
+      inc.add(c)
+  except z3.Z3Exception:
+    inc = None
+  n = 0
+  for fname, wa, b in pairs:
+    # same-value stores of a thread-independent constant are benign (flags)
+    if b.kind == "w" and wa.value is not None and b.value is not None:
+      try:
+        va, vb = lift(wa.value), lift(b.value)
+        if va.eq(vb) and not (set(_thread_local_consts([va])) ):
+          continue
+      except Exception:
+        pass
+    n += 1
+    gw = _smt.integer_projection([zb(wa.guard)], pstate)
+    gb = [prime(x) for x in _smt.integer_projection([zb(b.guard)], pstate)]
+    same = z3.And(*[lift(i) == prime(lift(j)) for i, j in zip(wa.idx, b.idx) if i is not None and j is not None])
+    goal = z3.Not(same)
+    oid = f"{key}[{label}]#RACE.{fname}@{wa.lineno}.w-vs-{b.kind}@{b.lineno}.{n}"
+    m = dict(meta0, goal=f"distinct threads: the store to {fname} at line {wa.lineno} and the {'store' if b.kind == 'w' else ('read' if b.kind == 'r' else 'atomic update')} at line {b.lineno} never hit the same cell", lineno=wa.lineno)
+    r = z3.unknown
+    if inc is not None:
+      inc.push()
+      try:
+        for c in gw + gb:
+          inc.add(c)
+        inc.add(same)
+        r = inc.check()
+      except z3.Z3Exception:
+        r = z3.unknown
+      inc.pop()
+    if r == z3.unsat:
+      out.append(Result(oid=oid, status="discharged", kind="RACE", func=key, backend="z3-5.1(api) incremental, two-thread encoding, integer projection", meta=m))
+    else:
+      hyps = list(base) + [prime(h) for h in base] + [distinct, zb(wa.guard), prime(zb(b.guard))] + (alloc_ax if inc is not None else [])
+      out.append(Obligation(oid, hyps, goal, func=key, kind="RACE", meta=dict(m, int_projection=True, timeout_ms=4000)))
   return out
 
 
@@ -481,6 +943,10 @@ def kernel_group(key, which, dedupe_label=True):
         out.extend(capacity_obligations(run, label))
       if "COVER" in which:
         out.extend(cover_obligations(run, label))
+      if "BOUNDS" in which:
+        out.extend(bounds_obligations(run, label))
+      if "RACE" in which:
+        out.extend(race_obligations(run, label))
     return out
 
   return gen
